@@ -9,7 +9,7 @@ from vlib import gen_values as gv
 
 PLAIN_NAMES = ["a", "b", "c", "d", "foo", "bar", "x1", "name", "ab", "x_a"]
 # names that _parse_attribute_name rewrites; pairwise non-colliding after mapping
-RENAMING_NAMES = ["class", "a-b", "1st", "for", "é", "my name", "a.b", "__init__", "@type", "from"]
+RENAMING_NAMES = ["class", "a-b", "1st", "for", "é", "my name", "a.b", "__init__", "@type", "from", "caf\u00e9"]
 # property names that are themselves JSON-Schema keywords (annotation keywords included): a loader or walker
 # which treats a key by its spelling rather than by its position goes wrong on these
 KEYWORD_NAMES = ["examples", "$comment", "default", "title", "type", "enum", "description", "$id", "readOnly"]
